@@ -406,6 +406,11 @@ func mkConfig(js JobSpec, params map[string]int, tier string) *JobConfig {
 	if c.Solver == "" {
 		c.Solver = "z3"
 	}
+	// cross-checking an encoding with another back end: VERIF_SOLVER=z3-new|cvc5|cvc5-int|z3
+	// overrides every job's solver (tools/solver_diff.sh); not used by the registered commands
+	if v := os.Getenv("VERIF_SOLVER"); v != "" {
+		c.Solver = v
+	}
 	if c.TimeoutMs == 0 {
 		if tier == "thorough" {
 			c.TimeoutMs = 120000
